@@ -31,7 +31,7 @@ static const char* kTexts[] = {
     "[1,[2,\"y\"],{\"a\":null}]",                 // 1 valid array
     "\"str\"",                                     // 2 valid scalar
     "{\"a\":[1,",                                  // 3 truncated inside nested containers
-    "[1,2",                                        // 4 truncated
+    "[1,{\"a\":\"x\"},[2]] x",                    // 4 complete tree followed by a stray byte: the finished root is torn down
     "[[[[[[[[[[[[[[[[[[[[[[[[],[],1]",             // 5 deep, overflows the initial node stack, invalid
     "{\"a\":{\"b\":[1,{\"c\":\"d\"}]},\"b\":2}",   // 6 valid, nested
     "{\"a\":\"\\ud800\"}",                         // 7 invalid escape inside a member
